@@ -449,7 +449,7 @@ REQUIRED_INPUT = {
     "hwmon/no-sensors:hwdir=False,tzdir=False", "hwmon/no-sensors:hwdir=True,tzdir=True",
     "hwmon/thermal-tolerated", "hwmon/thermal-required",
     "battery/bats:0", "battery/bats:1", "battery/bats:2", "battery/psdir:False", "battery/psdir:True",
-    "battery/ac:none", "battery/ac:AC0", "battery/ac:AC", "battery/layout:energy", "battery/layout:charge",
+    "battery/ac:none", "battery/ac:AC0", "battery/ac:AC", "battery/layout:energy", "battery/layout:charge", "battery/layout:both",
     "battery/status:absent", "battery/status:Discharging", "battery/status:Charging", "battery/status:Full",
     "battery/status:Not charging", "battery/pct:now/full", "battery/pct:capacity",
     "battery/secs:num", "battery/secs:unknown", "battery/secs:unlimited", "battery/secs:any",
@@ -553,7 +553,7 @@ def rand_input(rnd, variant):
         bats = []
         for _ in range(rnd.choice([0, 1, 1, 1, 2, 3])):
             full = rnd.randrange(1, 201)
-            b = {"layout": rnd.choice(["energy", "charge"]), "now": opt(list(range(0, min(200, 2 * full) + 1))),
+            b = {"layout": rnd.choice(["energy", "charge", "both"]), "now": opt(list(range(0, min(200, 2 * full) + 1))),
                  "full": opt([full]), "power": opt([0] + list(range(0, 120))),
                  "capacity": opt(list(range(0, 101)), 0.5), "tte": opt([0, 5, 90], 0.3),
                  "status": rnd.choice(["absent", "Discharging", "Charging", "Full", "Not charging", "Unknown"])}
